@@ -99,6 +99,7 @@ func runC17(p *core.Prog, r *core.Result) {
 		"R17.3 '*' -> [^/]*, '**' -> .* (consuming both stars), '?' -> one character, '\\\\x' -> literal x for x in \\\\ * ? [ ] and an error otherwise or at end of pattern",
 		"R17.4 the emission skeleton for 1, 2 and 3 patterns parses to begin-text · (alternation of the per-pattern groups) · end-text: every alternative is anchored at both ends",
 		"R17.5 callers match whole paths with MatchString only",
+		"R17.8 the string handed to the compiled set is the walked path itself, at most prefix-stripped and separator-normalised by filepath.ToSlash: no character-rewriting function (strings.Replace*, Map, case folding, trimming of characters) lies between the file system and the match",
 		"R17.7 a glob set is applied to each path separately: no directory walk prunes a subtree (SkipDir/SkipAll) depending on a match of the directory's own path",
 		"R17.6 the compiled set is a function of the given pattern list alone (no package-level state, every successful return is the compilation of this call's pattern)",
 	}
@@ -757,6 +758,38 @@ func runC17(p *core.Prog, r *core.Result) {
 							r.Bad("R17.7", fmt.Sprintf("%s#prunes-on-match-%d", fname(f), nPrune), p.InstrPos(ret), "the walk skips a whole directory depending on whether the directory's own path matches a glob set: paths below it are then decided by the directory, not by matching each of them (files under a directory named by an exclude pattern are dropped although no exclude pattern matches them)")
 						}
 					}
+				}
+			}
+			// R17.8 what is matched is the path itself (separator-normalised with filepath.ToSlash, prefix stripped),
+			// not a rewritten string
+			if len(c.Common().Args) > 1 {
+				rewrite := ""
+				for v := range core.BackwardSlice(c.Common().Args[1], core.SliceOpts{Stores: true, ThroughCall: func(*ssa.Call) bool { return true }}) {
+					cc, ok := v.(*ssa.Call)
+					if !ok {
+						continue
+					}
+					cal := core.Callee(cc)
+					if cal == nil || cal.Pkg == nil {
+						continue
+					}
+					switch cal.Pkg.Pkg.Path() {
+					case "strings", "bytes":
+						switch cal.Name() {
+						case "Replace", "ReplaceAll", "Map", "ToLower", "ToUpper", "ToTitle", "Title", "NewReplacer", "Fields", "TrimSpace", "Trim", "TrimLeft", "TrimRight", "TrimFunc":
+							rewrite = cal.Pkg.Pkg.Name() + "." + cal.Name()
+						}
+					case "regexp":
+						if strings.HasPrefix(cal.Name(), "Replace") {
+							rewrite = "regexp." + cal.Name()
+						}
+					}
+				}
+				construct := fmt.Sprintf("%s#matches-the-path-%d", fname(f), nUse)
+				if rewrite != "" {
+					r.Bad("R17.8", construct, p.InstrPos(c.(ssa.Instruction)), "the string matched against the glob set has been rewritten with %s: on this platform the rewritten characters are ordinary file-name characters (a backslash on Unix), so the set is matched against a string that is not the path - files are selected or dropped contrary to the patterns, and a path that does not exist can be returned", rewrite)
+				} else {
+					r.OK("R17.8", construct, p.InstrPos(c.(ssa.Instruction)), "the matched string is the walked path (prefix-stripped / separator-normalised only)")
 				}
 			}
 			r.Check(mc.Method == "MatchString", "R17.5", fname(f)+"#glob-use:"+mc.Method, p.InstrPos(c.(ssa.Instruction)), "the compiled glob set is applied with MatchString to the whole path", "the compiled glob set is applied with "+mc.Method+": not a whole-path match")
